@@ -20,7 +20,13 @@ set_option linter.unusedSimpArgs false
 namespace C09
 open Tls CTV
 
-/-! ## the two round trips -/
+/-! ## the two round trips
+
+`Tls.dec : Ty → Bytes → Except Err (Val × Bytes)` has no argument for what the destination held before: in the model the
+result of a decode is a function of the type shape and the bytes alone, so "decoding B into a variable that already
+holds A gives what decoding B into a fresh variable gives" is true of the model by its type.  The implementation is held
+to that by the harness' *reused-destination* mode (both C09 and C04: every successful decode is repeated into a
+destination that already holds an earlier value of the same type and must give the same value, rest and re-encoding). -/
 
 /-- decode ∘ encode: for every well-formed type shape `t` (variants included), every value `v` and every
 suffix `r`: if `v` encodes to `bs` then `bs ++ r` decodes to exactly `v` with exactly `r` left over. -/
